@@ -1,6 +1,7 @@
 from __future__ import annotations
 
 import functools
+import io
 import logging
 import pickle
 from itertools import product
@@ -29,6 +30,26 @@ def _dumps5(obj):
     out = pickle.dumps(obj, protocol=5)
     if b"__main__" in out:
         out = cloudpickle.dumps(obj, protocol=5)
+    return out
+
+
+def _dumps5_nomemo(obj):
+    """One pickle of ``obj`` (protocol 5) with the pickler's memo switched off.
+
+    A memoising pickle records which parts of ``obj`` are the *same object*:
+    ``(t, t)`` and ``((5, 5), (5, 5))`` built from two equal tuples give
+    different bytes, so a content hash of them would name equal inputs
+    differently. Without the memo the bytes depend on the value alone. Only
+    for acyclic payloads of plain values (a cycle raises ``RecursionError``);
+    payloads that refer to ``__main__`` are refused like any other failure so
+    callers fall back to ``tokenize``."""
+    buf = io.BytesIO()
+    pickler = pickle.Pickler(buf, protocol=5)
+    pickler.fast = True
+    pickler.dump(obj)
+    out = buf.getvalue()
+    if b"__main__" in out:
+        raise pickle.PicklingError("payload refers to __main__")
     return out
 
 
